@@ -14,7 +14,8 @@ RULE = ("APIs: apis.conventional extended with a recursive tree (nested, mutuall
         "dependency package, including dependency messages that carry resource references (type / child_type, down to depth 3) to "
         "resources whose messages are in the target package; the former DESIGN 9 no. 4 counterexample and the internal-polling one (corpus/C16, run first). Configurations: for each API subsets of RPC selectors (singletons, one "
         "whole service, all, all-but-one, half, pairs, LRO/list only) x generate_omitted_as_internal in {false,true}, plus empty "
-        "list, unknown method, other-version entry, duplicate version, prefix version, two entries. A case is one (API, settings) "
+        "list, unknown method, other-version entry, duplicate version, prefix version, two entries, and other spellings of a listed name "
+        "(leading dot, trailing dot, surrounding blanks, wrong case; rejected, or accepted and then meaning that method). A case is one (API, settings) "
         "pair at schema level (API.build) or library level (generate + import + drive); distinct = distinct canonical JSON of "
         "(request hash, settings, level); non-trivial = at least one RPC listed.")
 TRUSTED = [
@@ -119,6 +120,12 @@ def configs_for(r, req, n_subsets, invalid=True, first=()):
         out.append(("other-version method", [{"version": pkg, "methods": [one.replace(pkg, other_version(pkg), 1)], "internal": False}], "unknown"))
         out.append(("duplicate version", [{"version": pkg, "methods": [one], "internal": False}, {"version": pkg, "methods": [], "internal": False}], "dup"))
         out.append(("prefix version", [{"version": pkg.rsplit(".", 1)[0], "methods": [one], "internal": False}], "prefix"))
+        # other spellings of a listed name: either rejected, or accepted and then meaning exactly that method
+        for kind, spell in (("leading dot", "." + one), ("trailing dot", one + "."), ("surrounding blanks", " " + one + " "),
+                            ("wrong case", one.rsplit(".", 2)[0] + "." + ".".join(one.rsplit(".", 2)[1:]).lower())):
+            for internal in (True, False):
+                out.append((f"misspelt ({kind}) internal={internal}",
+                            [{"version": pkg, "methods": [spell], "internal": internal, "canonical": [one]}], "misspelt"))
         out.append(("two entries", [{"version": other_version(pkg), "methods": [], "internal": False},
                                     {"version": pkg, "methods": [one], "internal": False}], "valid"))
     return out
@@ -334,8 +341,16 @@ def schema_oracle(ctx, api, it, obs):
         if obs.get("ok") or obs.get("error") != "ClientLibrarySettingsError":
             ctx.violation(f"{intent} selective-generation entry was not rejected ({obs.get('error', 'built')})", case)
         return
-    if intent not in ("valid", "none"):
+    if intent == "misspelt" and not obs.get("ok"):
+        if obs.get("error") != "ClientLibrarySettingsError":
+            ctx.violation(f"a misspelt listed name was neither rejected as a settings error nor accepted: {obs.get('error')}", case)
         return
+    if intent not in ("valid", "none", "misspelt"):
+        return
+    if intent == "misspelt" and sel is not None:
+        # accepted: it must then mean the method it misspells (the property: listed RPCs are exposed, only unlisted ones get the underscore)
+        listed = list(sel.get("canonical") or listed)
+        case = {**case, "note": f"the spelling {sel['methods']} was accepted; it must then mean {listed}"}
     if not obs.get("ok"):
         if obs.get("error") == "RecursionError" and "polling_cycle" in api["knobs"] and listed and not sel.get("internal"):
             # outside the property: the FULL library of an API whose polling chain loops cannot be imported either
@@ -475,7 +490,7 @@ def run_library(ctx, libs):
     # drive: the full library of each API once, then every selective library
     plans = {}
     for k, lb in enumerate(libs):
-        if k in roots and lb.get("libpkg") and lb["intent"] in ("full", "valid"):
+        if k in roots and lb.get("libpkg") and lb["intent"] in ("full", "valid", "misspelt"):
             plans[k] = drive_plan(lb)
     drv = gen.pmap(lambda k: _drive(roots[k], libs[k]["libpkg"], plans[k]), list(plans))
     for k, o in zip(list(plans), drv):
@@ -547,7 +562,7 @@ def drive_plan(lb):
     sel = None
     if lb["settings"] is not None:
         sel = next((s for s in reversed(lb["settings"]) if s["version"] == pkg), None)
-    listed = set(sel["methods"]) if sel and sel["methods"] else None
+    listed = set(sel.get("canonical") or sel["methods"]) if sel and sel["methods"] else None
     internal = bool(sel and sel.get("internal"))
     if listed is None or internal:
         kept = set(ref.methods)
@@ -616,6 +631,14 @@ def library_oracle(ctx, lb, full):
     internal = bool(sel and sel.get("internal"))
     ctx.case(case_key(api, lb, "library"), nontrivial=bool(listed) or lb["intent"] != "valid",
              feature=[f"lib-intent={lb['intent']}", f"lib-internal={internal}"] + [f"lib-knob={k}" for k in sorted(api["knobs"])])
+    if lb["intent"] == "misspelt":
+        if not lb["gen_ok"]:
+            kind = gen.error_kind(lb["stderr"])
+            if kind != "ClientLibrarySettingsError":
+                ctx.violation(f"a misspelt listed name was neither rejected as a settings error nor accepted: {kind}", case)
+            return
+        listed = list(sel.get("canonical") or listed) if sel else listed
+        case = {**case, "note": f"the spelling {sel['methods'] if sel else None} was accepted; it must then mean {listed}"}
     if lb["intent"] in ("unknown", "other_version", "dup"):
         kind = gen.error_kind(lb["stderr"]) if not lb["gen_ok"] else "generated"
         if lb["gen_ok"] or kind != "ClientLibrarySettingsError":
@@ -819,7 +842,10 @@ def run(ctx):
             nv += 2 * min(len(api.get("first", ())), ctx.n(2, 99))
             if only_forced or not api["e2e"]:
                 valid, bad = [], []
-            for label, settings, intent in forced + valid[:nv] + r.sample(bad, min(nb, len(bad))):
+            dotted = [c for c in cfgs if c[2] == "misspelt" and "leading dot" in c[0] and c[1][0]["internal"]][:1]
+            if only_forced or not api["e2e"]:
+                dotted = []
+            for label, settings, intent in forced + valid[:nv] + r.sample(bad, min(nb, len(bad))) + dotted:
                 libs.append({"api": api, "label": label, "settings": settings, "intent": intent})
     for entries in corpus.values():
         fn, c0 = entries[0]
